@@ -2,6 +2,7 @@
 //! which oracle decides, and which cases count as non-trivial.
 
 use crate::hist::*;
+use crate::models;
 use crate::oracle::{self, Ctx, Dir, Finding};
 use crate::run::{Engine, Outcome};
 use crate::scn::{self, *};
@@ -259,6 +260,54 @@ pub fn world_engine(prop: &str, thorough: bool) -> Option<WorldEngine> {
             oracle: |cx, _| oracle::c17(cx),
             nontrivial: nt_c17,
         },
+        "C07" => WorldEngine {
+            prop: "C07",
+            profiles: vec![
+                (Profile::Single(Op::Map), 1),
+                (Profile::Single(Op::Filter), 1),
+                (Profile::Single(Op::Scan), 1),
+                (Profile::Single(Op::Take), 2),
+                (Profile::Single(Op::Skip), 1),
+            ],
+            max_steps,
+            oracle: |cx, _| models::c07(cx),
+            nontrivial: |cx, _| models::nt_c07(cx),
+        },
+        "C08" => WorldEngine {
+            prop: "C08",
+            profiles: vec![(Profile::Single(Op::Merge), 1)],
+            max_steps,
+            oracle: |cx, _| models::c08(cx),
+            nontrivial: |cx, _| models::nt_c08(cx),
+        },
+        "C09" => WorldEngine {
+            prop: "C09",
+            profiles: vec![(Profile::Single(Op::Concat), 1)],
+            max_steps,
+            oracle: |cx, _| models::c09(cx),
+            nontrivial: |cx, _| models::nt_c09(cx),
+        },
+        "C10" => WorldEngine {
+            prop: "C10",
+            profiles: vec![(Profile::Single(Op::Combine), 1)],
+            max_steps,
+            oracle: |cx, _| models::c10(cx),
+            nontrivial: |cx, _| models::nt_c10(cx),
+        },
+        "C11" => WorldEngine {
+            prop: "C11",
+            profiles: vec![(Profile::Single(Op::Flatten), 1)],
+            max_steps,
+            oracle: |cx, _| models::c11(cx),
+            nontrivial: |cx, _| models::nt_c11(cx),
+        },
+        "C12" => WorldEngine {
+            prop: "C12",
+            profiles: vec![(Profile::Share, 1)],
+            max_steps,
+            oracle: |cx, _| models::c12(cx),
+            nontrivial: |cx, _| models::nt_c12(cx),
+        },
         "SELF" => WorldEngine {
             prop: "SELF",
             profiles: vec![(Profile::SelfCheck, 1)],
@@ -291,6 +340,12 @@ pub fn rule_text(prop: &str) -> String {
         "C04" => "non-trivial = an output became over while an upstream instance was live, or an instance had already ended when a later termination event happened",
         "C05" => "non-trivial = a puppet sent Error while the output it feeds was live",
         "C17" => "non-trivial = the scenario reached a guarded region: talkback used inside a handshake handler, Pull or emission inside a greeting, late greeting",
+        "C07" => "non-trivial = at least 2 data were sent and the parameter boundary was crossed (take: n <= #data; skip: 0 < n < #data; filter: both outcomes of the predicate)",
+        "C08" => "non-trivial = at least 2 members and at least 2 of them acted, or a late greeter exists",
+        "C09" => "non-trivial = at least 2 members and a boundary was crossed, or an error/disposal happened with members left",
+        "C10" => "non-trivial = every member produced a value and at least 2 tuples were delivered",
+        "C11" => "non-trivial = at least 2 inner subscriptions (a switch or a hand-over), or both the outer and an inner ended (completion-order race)",
+        "C12" => "non-trivial = two probes overlapped in time, or the upstream was restarted",
         _ => "non-trivial = at least one instance was subscribed",
     };
     format!("{gen}{nt}")
